@@ -60,6 +60,17 @@ func rootFns(c *Ctx) []*ssa.Function {
 
 // loadedField: if v is a load of a struct field, return the field object.
 func loadedField(v ssa.Value) *types.Var {
+	// a channel handed on with a restricted direction is the same channel
+	for {
+		ct, isCT := v.(*ssa.ChangeType)
+		if !isCT {
+			break
+		}
+		if _, isCh := ct.Type().Underlying().(*types.Chan); !isCh {
+			break
+		}
+		v = ct.X
+	}
 	u, ok := v.(*ssa.UnOp)
 	if !ok || u.Op != token.MUL {
 		return nil
